@@ -28,14 +28,19 @@ N == P.N                 \* number of data rows
 B == P.B                 \* buffersize
 CacheFlag == P.cache
 FailAt == P.fail
-\* FailAt = 0: the source never fails; r in 1..N: it raises instead of delivering data row r;
-\* N + 1: it raises at exhaustion.
+\* FailAt = 0: nothing fails; r in 1..N: the source raises instead of delivering data row r; N + 1: it raises at
+\* exhaustion; 100 + r: data row r holds a value that cannot be pickled, so DUMPING the chunk that contains it fails
+\* (only on the file path - in memory the row is never pickled and the pass is an ordinary one).
+SrcFail == IF FailAt <= 100 THEN FailAt ELSE 0
+DumpRow == IF FailAt > 100 THEN FailAt - 100 ELSE 0
 
 M == N + 1                                   \* items of the solo pass (header first)
 FilePath == N >= B
 NChunks == IF FilePath THEN (N + B - 1) \div B ELSE 0
-\* chunk files already written when the source fails
-ChunksAtFailure == (FailAt - 1) \div B
+Fails == SrcFail # 0 \/ (DumpRow # 0 /\ FilePath)
+\* chunk files in existence when the failure surfaces: those already written when the source fails; those written plus
+\* the one being written when a dump fails
+ChunksAtFailure == IF SrcFail # 0 THEN (SrcFail - 1) \div B ELSE (DumpRow + B - 1) \div B
 
 VARIABLES viewRef,    \* the user still holds the view
           viewList,   \* list id in the view's _filecache (0 = none); "mem" cache is tracked by memCache
@@ -55,7 +60,7 @@ FilesAlive == LET S == {l \in Its : Held(l)} IN
                   Sum(T) == IF T = {} THEN 0 ELSE LET x == CHOOSE x \in T : TRUE IN nfiles[x] + Sum(T \ {x})
               IN Sum(S)
 
-Init == /\ P \in {p \in [N : NSet, B : BSet, cache : CacheSet, fail : FailSet] : p.fail <= p.N + 1}
+Init == /\ P \in {p \in [N : NSet, B : BSet, cache : CacheSet, fail : FailSet] : p.fail <= p.N + 1 \/ (p.fail > 100 /\ p.fail - 100 <= p.N)}
         /\ viewRef = TRUE /\ viewList = 0 /\ memCache = FALSE
         /\ nfiles = [l \in Its |-> 0] /\ hold = [i \in Its |-> 0]
         /\ st = [i \in Its |-> "unborn"] /\ kind = [i \in Its |-> "nocache"]
@@ -89,7 +94,7 @@ NextNoCache(i) ==
           /\ Log(i, "next", 1)
      ELSE IF n[i] = 1
      THEN \* read + sort everything (or fail while reading)
-          IF FailAt # 0
+          IF Fails
           THEN /\ Finish(i, "raised")                       \* frame released with the exception
                /\ nfiles' = [nfiles EXCEPT ![i] = ChunksAtFailure]
                /\ hold' = [hold EXCEPT ![i] = i]
@@ -139,7 +144,7 @@ ReadersHaveFiles == \A i \in Its : Live(i) /\ hold[i] # 0 => Held(hold[i])
 IsPrefixOfSolo(d) == \A j \in 1..Len(d) : d[j] = j
 Complete == \A i \in Its : IsPrefixOfSolo(del[i]) /\ (st[i] = "done" => Len(del[i]) = M)
 \* no files at all on the memory path
-MemPathNoFiles == ~FilePath /\ FailAt = 0 => FilesAlive = 0
+MemPathNoFiles == ~FilePath /\ SrcFail = 0 => FilesAlive = 0
 
 Finished == AllReleased
 EmitHistory == Finished => PrintT(ToJson([P |-> P, hist |-> hist]))
